@@ -191,6 +191,20 @@ func Not(a *Term) *Term {
 }
 
 func And(xs ...*Term) *Term {
+	for round := 0; round < 4; round++ {
+		r, changed := and1(xs)
+		if !changed || r.op != "and" {
+			return r
+		}
+		xs = r.args
+	}
+	r, _ := and1(xs)
+	return r
+}
+
+// and1 flattens, removes duplicates and propagates the conjuncts as units into
+// negated conjunctions: x & !(x & y) becomes x & !y.
+func and1(xs []*Term) (*Term, bool) {
 	var out []*Term
 	seen := map[int]bool{}
 	var add func(x *Term) bool
@@ -215,22 +229,73 @@ func And(xs ...*Term) *Term {
 	}
 	for _, x := range xs {
 		if !add(x) {
-			return False
+			return False, false
 		}
 	}
 	for _, x := range out {
 		if x.op == "not" && seen[x.args[0].id] {
-			return False
+			return False, false
 		}
+	}
+	changed := false
+	for i, x := range out {
+		if x.op != "not" || x.args[0].op != "and" {
+			continue
+		}
+		inner := x.args[0].args
+		var rest []*Term
+		dropX := false
+		for _, y := range inner {
+			if seen[y.id] {
+				continue // known true
+			}
+			if y.op == "not" && seen[y.args[0].id] {
+				dropX = true // inner conjunction is false, so x is true
+				break
+			}
+			if ny := Not(y); seen[ny.id] {
+				dropX = true
+				break
+			}
+			rest = append(rest, y)
+		}
+		switch {
+		case dropX:
+			out[i] = True
+			changed = true
+		case len(rest) == 0:
+			return False, false
+		case len(rest) < len(inner):
+			out[i] = Not(mkAnd(rest))
+			changed = true
+		}
+	}
+	if changed {
+		var o2 []*Term
+		for _, x := range out {
+			if x != True {
+				o2 = append(o2, x)
+			}
+		}
+		out = o2
 	}
 	switch len(out) {
 	case 0:
-		return True
+		return True, false
 	case 1:
-		return out[0]
+		return out[0], false
 	}
 	sort.SliceStable(out, func(i, j int) bool { return out[i].id < out[j].id })
-	return mk("and", BoolSort, out...)
+	return mk("and", BoolSort, out...), changed
+}
+
+func mkAnd(xs []*Term) *Term {
+	if len(xs) == 1 {
+		return xs[0]
+	}
+	ys := append([]*Term(nil), xs...)
+	sort.SliceStable(ys, func(i, j int) bool { return ys[i].id < ys[j].id })
+	return mk("and", BoolSort, ys...)
 }
 
 func Or(xs ...*Term) *Term {
@@ -350,11 +415,11 @@ func Eq(a, b *Term) *Term {
 			return Not(a)
 		}
 	}
-	// eq(ite(c, k1, k2), k) with constants
-	if b.IsConst() && a.op == "ite" && a.args[1].IsConst() && a.args[2].IsConst() {
+	// eq(ite(c, k1, x), k) with constants: push the comparison into the branches
+	if b.IsConst() && a.op == "ite" && (a.args[1].IsConst() || a.args[2].IsConst()) {
 		return Ite(a.args[0], Eq(a.args[1], b), Eq(a.args[2], b))
 	}
-	if a.IsConst() && b.op == "ite" && b.args[1].IsConst() && b.args[2].IsConst() {
+	if a.IsConst() && b.op == "ite" && (b.args[1].IsConst() || b.args[2].IsConst()) {
 		return Ite(b.args[0], Eq(b.args[1], a), Eq(b.args[2], a))
 	}
 	if a.id > b.id {
@@ -601,10 +666,12 @@ func bvcmp(op string, a, b *Term) *Term {
 	return mk(op, BoolSort, a, b)
 }
 
+// only the strict comparisons are primitive: a <= b is written !(b < a), so
+// that a branch condition and the negation of its complement are the same term
 func BVUlt(a, b *Term) *Term { return bvcmp("bvult", a, b) }
-func BVUle(a, b *Term) *Term { return bvcmp("bvule", a, b) }
+func BVUle(a, b *Term) *Term { return Not(bvcmp("bvult", b, a)) }
 func BVSlt(a, b *Term) *Term { return bvcmp("bvslt", a, b) }
-func BVSle(a, b *Term) *Term { return bvcmp("bvsle", a, b) }
+func BVSle(a, b *Term) *Term { return Not(bvcmp("bvslt", b, a)) }
 
 func Extract(a *Term, hi, lo int) *Term {
 	w := Sort(hi - lo + 1)
